@@ -43,33 +43,37 @@ def norm_type(t):
 
 
 @st.composite
-def type_and_defaults(draw, depth=0, allow_union_str=False, argparse_only=False):
+def type_and_defaults(draw, depth=0, allow_union_str=False, argparse_only=False, exclude=()):
     """-> (type string, strategy of admissible *explicit* defaults for that type (JSON form))."""
     kinds = ["scalar", "scalar", "scalar", "Optional", "List", "Literal"]
     if not argparse_only:
         kinds += ["dotted", "Union", "Tuple"]
-    if depth >= 2:
+    if depth >= 2 or (argparse_only and depth >= 1):
         kinds = ["scalar", "Literal"] + ([] if argparse_only else ["dotted"])
+        if argparse_only:  # "Optional/List/Literal of scalars": one level only
+            kinds = ["scalar"]
     k = draw(st.sampled_from(kinds))
     if k == "scalar":
-        n = draw(st.sampled_from(SCALARS))
+        n = draw(st.sampled_from([x for x in SCALARS if not (x == "bool" and depth and "required_bool" in exclude)]))
         return n, scalar_defaults(n)
     if k == "dotted":
         n = draw(st.sampled_from(DOTTED))
         return n, None  # only a code expression is admissible: knob `code_default`
     if k == "Literal":
-        if draw(st.booleans()):
-            vals = draw(st.lists(st.sampled_from(STR_WORDS), min_size=1, max_size=3, unique=True))
+        if "int_literal" in exclude or draw(st.booleans()):
+            vals = draw(st.lists(st.sampled_from(STR_WORDS), min_size=2 if "single_literal" in exclude else 1, max_size=3, unique=True))
             return norm_type("Literal[%s]" % ", ".join(repr(v) for v in vals)), st.sampled_from(vals)
         vals = draw(st.lists(st.integers(0, 9), min_size=2, max_size=3, unique=True))
         return norm_type("Literal[%s]" % ", ".join(map(str, vals))), st.sampled_from(vals)
     if k == "Optional":
-        inner, dflt = draw(type_and_defaults(depth=depth + 1, allow_union_str=allow_union_str, argparse_only=argparse_only))
+        inner, dflt = draw(type_and_defaults(depth=depth + 1, allow_union_str=allow_union_str, argparse_only=argparse_only, exclude=exclude))
         if inner.startswith("Optional["):
             return inner, dflt
+        if "none_default" in exclude:
+            return "Optional[%s]" % inner, dflt
         return "Optional[%s]" % inner, st.none() if dflt is None else st.one_of(st.none(), dflt)
     if k == "List":
-        inner, _ = draw(type_and_defaults(depth=depth + 1, allow_union_str=allow_union_str, argparse_only=argparse_only))
+        inner, _ = draw(type_and_defaults(depth=depth + 1, allow_union_str=allow_union_str, argparse_only=argparse_only, exclude=exclude))
         return "List[%s]" % inner, None
     if k == "Tuple":
         n = draw(st.integers(1, 3))
@@ -120,8 +124,8 @@ def prose(draw, min_words=2, max_words=7, punct=False):
 
 # ----------------------------------------------------------------------------- base IR and mutators
 @st.composite
-def base_param(draw, name, argparse_only=False, allow_union_str=False):
-    typ, dflts = draw(type_and_defaults(argparse_only=argparse_only, allow_union_str=allow_union_str))
+def base_param(draw, name, argparse_only=False, allow_union_str=False, exclude=()):
+    typ, dflts = draw(type_and_defaults(argparse_only=argparse_only, allow_union_str=allow_union_str, exclude=exclude))
     if len(typ) > 58:  # long types are a knob of their own (C18); the base stays well inside the wrap width
         typ = draw(st.sampled_from(SCALARS))
         dflts = scalar_defaults(typ)
@@ -375,6 +379,22 @@ def m_bool_false(draw, ir):
     p["default"] = False
 
 
+def m_int_literal(draw, ir):
+    p = _ensure_param(draw, ir)
+    vals = draw(st.lists(st.integers(0, 9), min_size=2, max_size=3, unique=True))
+    p["typ"] = norm_type("Literal[%s]" % ", ".join(map(str, vals)))
+    if "default" in p or draw(st.booleans()):
+        p["default"] = draw(st.sampled_from(vals))
+
+
+def m_single_literal(draw, ir):
+    p = _ensure_param(draw, ir)
+    v = draw(st.sampled_from(STR_WORDS))
+    p["typ"] = "Literal[%r]" % v
+    if "default" in p or draw(st.booleans()):
+        p["default"] = v
+
+
 def m_required_bool(draw, ir):
     p = _ensure_param(draw, ir, "bool")
     p.pop("default", None)
@@ -386,7 +406,8 @@ MUTATORS = OrderedDict(
 
 
 @st.composite
-def ir_strategy(draw, allowed=(), forced=None, max_params=5, min_params=0, argparse_only=False, p_default=0.6):
+def ir_strategy(draw, allowed=(), forced=None, max_params=5, min_params=0, argparse_only=False, p_default=0.6,
+                base_exclude=()):
     """Base IR (typed + documented parameters, admissible defaults) + a random subset of the `allowed`
     mutators + exactly the `forced` one (frontier)."""
     n = draw(st.integers(min_params, max_params))
@@ -394,9 +415,11 @@ def ir_strategy(draw, allowed=(), forced=None, max_params=5, min_params=0, argpa
     params = []
     seen_default = False
     for name in names:
-        p = draw(base_param(name, argparse_only=argparse_only))
+        exclude = tuple(k for k in base_exclude if k not in allowed and k != forced)
+        p = draw(base_param(name, argparse_only=argparse_only, exclude=exclude))
         # base shape: once a parameter has a default every later one has one too (the gap is a knob)
-        if p["_dflts"] is not None and (seen_default or draw(st.floats(0, 1)) < p_default):
+        if p["_dflts"] is not None and (seen_default or draw(st.floats(0, 1)) < p_default
+                                        or (p["typ"] == "bool" and "required_bool" in exclude)):
             d = draw(p["_dflts"])
             if d is None and not p["typ"].startswith("Optional["):
                 d = draw(scalar_defaults("int"))
@@ -531,7 +554,7 @@ def param_tags(p, prev_has_default=False):
     else:
         if prev_has_default and not kw:
             t.add("nodefault_after_default")
-        if typ == "bool":
+        if typ is not None and "bool" in type_names(typ) and "Optional" not in type_names(typ):
             t.add("required_bool")
     if typ is not None:
         names = type_names(typ)
@@ -544,6 +567,8 @@ def param_tags(p, prev_has_default=False):
             t.add("t_dotted")
         if "Union" in names and "str" in names:
             t.add("union_with_str")
+        if re.search(r"Literal\[[^,\]]*\]", typ):
+            t.add("single_literal")
         if len(typ) > 90:
             t.add("long_type")
         if "Literal" in names and any(isinstance(n, ast.Constant) and isinstance(n.value, int) for n in ast.walk(ast.parse(typ, mode="eval"))):
